@@ -2858,7 +2858,9 @@ class RockRidge:
                                 continue
                             length = curr_comp_area_length - 2
                     else:
-                        length = complen
+                        # (complen includes the two bytes of the component
+                        # header, which are accounted for below.)
+                        length = complen - 2
                     compslice = comp[offset:offset + length]
 
                 curr_sl.add_component(compslice)
